@@ -62,17 +62,21 @@ theorem step_include_bytes {H : Hooks} {constants L : Dict} {p : Int} {line line
       obtain ⟨_, rfl⟩ := h5
       exact ⟨rfl, by simpa using hne⟩
 
-/-- **Strings and included files appear verbatim at their offset.** -/
+/-- **Strings and included files appear verbatim at their offset.**  `lay` is the layout the inputs
+    determine (`C03.Frame`); the items spoken about are those of `lay.aligned`, the list the pipeline
+    holds after resolve_aligns. -/
 theorem assemble_verbatim (H : Hooks) (compress : Bool) (items : List Item) (r : AsmResult)
     (h : assembleItems H compress items [] [] = .ok r) :
-    ∃ items7 out : List Item, Expands items items7 ∧ r.bytes = blobBytes out ∧
-      (∀ (i : Nat) (hi : i < items7.length) line text, items7[i] = .string line text →
+    ∃ lay out, Frame H compress items r lay out ∧
+      (∀ (i : Nat) (hi : i < lay.aligned.length) line text, lay.aligned[i] = .string line text →
         (r.bytes.drop (blobBytes (out.take i)).length).take (utf8Bytes text).length = utf8Bytes text) ∧
-      (∀ (i : Nat) (hi : i < items7.length) line path fsize, items7[i] = .includeBytes line path fsize →
+      (∀ (i : Nat) (hi : i < lay.aligned.length) line path fsize, lay.aligned[i] = .includeBytes line path fsize →
         ∃ data, H.readFile path = some data ∧ (data.length : Int) = fsize ∧
           (r.bytes.drop (blobBytes (out.take i)).length).take data.length = data) := by
-  obtain ⟨items7, out, hexp, hland, hbytes⟩ := assemble_land H compress items r h
-  refine ⟨items7, out, hexp, hbytes, ?_, ?_⟩
+  obtain ⟨lay, out, hF⟩ := assemble_land H compress items r h
+  have hland := hF.land
+  have hbytes := hF.bytes
+  refine ⟨lay, out, hF, ?_, ?_⟩
   · intro i hi line text hit
     obtain ⟨it', line', d, _, hbody, hfin, hslice⟩ := hland.at i hi
     rw [hit] at hbody
@@ -84,5 +88,14 @@ theorem assemble_verbatim (H : Hooks) (compress : Bool) (items : List Item) (r :
     rw [hit] at hbody
     obtain ⟨g1, g2⟩ := step_include_bytes hbody hfin
     exact ⟨d, g1, g2, by rw [hbytes]; exact hslice⟩
+
+/-- the hypothesis has instances: the layout computed for `C03.sample` holds `string hi` at index 7 in
+    both modes, and the output has "hi" there (offset 24 without -c, 20 with) -/
+example : ∀ c : Bool,
+    (BB.Props.C04.layoutOf (textHooks ⟨[], []⟩) c sample).toOption.map (fun l => l.aligned[7]?) = some
+      (some (.string (sampleLine 9 "string hi") "hi")) ∧
+    (assembleItems (textHooks ⟨[], []⟩) c sample [] []).toOption.map
+      (fun r => (r.bytes.drop (if c then 20 else 24)).take 2) = some [104, 105] := by
+  decide +kernel
 
 end BB.Props.C10
